@@ -127,6 +127,31 @@ pub fn cases(tier: &str, seed: u64, focus: &str) -> Vec<PlanCase> {
             }
         }
     }
+    // an earlier run whose end leaves the planner's codeword bookkeeping in every residue (EDIFACT 4k+1..4k+3, partial
+    // triples), one break character, a final run of every length, and a tail with characters the final scheme cannot hold
+    {
+        let prefixes: Vec<(Class, usize)> = vec![(Class::EdifactPunct, 5), (Class::EdifactPunct, 6), (Class::EdifactPunct, 7), (Class::EdifactPunct, 11),
+            (Class::Upper, 4), (Class::Upper, 5), (Class::X12, 7), (Class::Lower, 5), (Class::Digits, 5)];
+        let ends = [Class::EdifactPunct, Class::X12, Class::Upper, Class::Lower];
+        let tails: [&[u8]; 8] = [b"", b"_", b"a", b"\x1f", b"ab", b"1_", b"A", b"12"];
+        for (pc, pn) in &prefixes {
+            for ec in ends {
+                for n in 1..=(if thorough { 40 } else { 28 }) {
+                    for (ti, tail) in tails.iter().enumerate() {
+                        if !thorough && (n + ti) % 2 == 1 {
+                            continue;
+                        }
+                        let mut s = class_string(&mut rng, *pc, *pn);
+                        s.push(*rng.pick(b"\na~\x01"));
+                        s.extend(class_string(&mut rng, ec, n));
+                        s.extend_from_slice(tail);
+                        let list = if rng.chance(2, 3) { default.clone() } else { all.clone() };
+                        out.push(PlanCase { stratum: "prefixThenEod", input: s, modes: if rng.chance(3, 4) { 63 } else { g.modes(&mut rng, "C18") }, list });
+                    }
+                }
+            }
+        }
+    }
     // X12 triples filling a symbol exactly plus one or two more characters, on lists with capacity pairs differing by one
     for m in 1..=45usize {
         for tail in [&b"Z"[..], b"12", b"a", b"", b"ZZ"] {
